@@ -404,3 +404,11 @@ def send_gate(ctx):
     sg = ctx.repo.func('wallets:WalletTransaction.sign')
     last = [s for s in sg.body if isinstance(s, ast.Expr) and isinstance(s.value, ast.Call) and norm(s.value) == 'self.verify()']
     ctx.require(bool(last), 'wallets:WalletTransaction.sign', 'sign does not re-verify the transaction', sg)
+
+
+@PROP.obligation('C10.defaults')
+def api_defaults(ctx):
+    """Defaults of the parameters that decide this property for callers who do not pass them: cosigner keys are sorted and nothing is broadcast by default."""
+    from .common_defaults import defaults as run
+    n = run(ctx, [('wallets:Wallet.create', 'sort_keys', 'True'), ('wallets:wallet_create_or_open', 'sort_keys', 'True'), ('wallets:Wallet.send', 'broadcast', 'False'), ('wallets:Wallet.send_to', 'broadcast', 'False'), ('wallets:Wallet.sweep', 'broadcast', 'False'), ('transactions:Transaction.sign', 'replace_signatures', 'False'), ('wallets:WalletTransaction.sign', 'replace_signatures', 'False')], 'cosigner wallets created with default arguments disagree on the key order / partially signed spends are pushed')
+    ctx.floor(n, 6, 'parameter defaults')
